@@ -196,11 +196,12 @@ def run(tier):
     import functools
     from .. import scheddfs
     bound = 2 if tier == "thorough" else 1
-    r = scheddfs.explore(functools.partial(sched_execute, "cfg3"), sched_check, bound)
+    tasks = [(functools.partial(sched_execute, "cfg3"), sched_check, bound)]
+    r = (scheddfs.explore_many(tasks) if tier != "thorough" else scheddfs.explore_many_capped(tasks, 1, 600))[0]
     for (key, detail), choices in r["violations"]:
         rep.add(Violation(key, f"[two readers routing concurrently, bound {bound}] choices {choices}: {detail}", {"sched": "cfg3", "choices": choices}))
     rep.sample({"schedule_exploration": "requests on two ready connections processed concurrently by their reader threads (line granularity in "
-                                        "_receive_message/_receive_app_request), then 4 follow-up requests", "preemption_bound": bound,
+                                        "_receive_message/_receive_app_request), then 4 follow-up requests", "preemption_bound": bound, "bound_completed_without_cap": r.get("bound_completed", bound), "capped": r.get("capped", False),
                 "executions": r["executions"], "distinct_outcomes": len(r["outcomes"]), "branching_points": r["max_points"]})
     rep.cov["schedules"] = r["executions"]
     depth = 5 if tier == "thorough" else 4
